@@ -597,6 +597,12 @@ class Interp:
                 calls.append(n)
                 self.fresh += 1
                 return [(pc, Obj('opaque%d:%s' % (self.fresh, cname.split('::')[-1])))]
+        if getattr(self, 'opaque_on_failure', False):
+            # a std / foreign function without a model (bool::then, Option::filter ...): an uninterpreted application as well; whatever
+            # obligation needs to look through it fails on it, nothing is concluded from it
+            calls.append(n)
+            self.fresh += 1
+            return [(pc, Obj('opaque%d:%s' % (self.fresh, cname.split('::')[-1])))]
         raise Unsupported('call to ' + n)
 
     # -- driver -----------------------------------------------------------------------------------------
